@@ -6,7 +6,7 @@ strength = json.load(open(os.path.join(V, "seeded_notes.json")))
 rows = ["| seed | change (as described by its author) | caught by (signature of the first failure) | what the first version lacked |",
         "|------|--------------------------------------|---------------------------------------------|-------------------------------|"]
 for d in sorted(os.listdir(os.path.join(V, "seeded"))):
-    if not re.match(r"C\d\d-[C-O]$", d):
+    if not re.match(r"C\d\d-[C-Q]$", d):
         continue
     m = json.load(open(os.path.join(V, "seeded", d, "meta.json")))
     br = (m.get("breaks") or "").replace("\n", " ").replace("|", "/")[:230]
